@@ -442,3 +442,23 @@ def dump_json(obj, path):
     with open(tmp, "w") as f:
         json.dump(obj, f, indent=1, default=lambda o: repr(o)[:200])
     os.replace(tmp, path)
+
+
+class GeometrySkip(Exception):
+    """raised by workloads to skip a degenerate draw"""
+
+
+def tolerant(fn):
+    """Workload decorator: random draws occasionally produce coincident defining points; constructors then raise a GeometryException
+    (LinearDependenceError, NotCoplanar ...).  Calls of monitored operations that raise are judged by the monitors before the exception
+    reaches the workload, so the case is simply ended."""
+    def run(ctx, rng, i):
+        from geometer.exceptions import GeometryException
+
+        try:
+            fn(ctx, rng, i)
+        except GeometryException:
+            ctx.note(("workload", "case ended by a degenerate random draw"))
+
+    run.__name__ = getattr(fn, "__name__", "workload")
+    return run
